@@ -350,7 +350,7 @@ macro_rules! impl_fam {
                 w.as_ptr()
             }
             fn w_fmt(w: &Self::W) -> String {
-                format!("{:?}", w)
+                format!("{:?}|{:12?}|{:<9.3?}|{:#?}|{:+?}", w, w, w, w, w)
             }
             fn misc(ty: u8, a: u8, b: u8, same: bool) -> String {
                 #[allow(clippy::all)]
